@@ -47,3 +47,47 @@ func NewErr(s string) error { return Err{s} }
 
 // Pair returns two values.
 func Pair() (int, string) { return 1, "a" }
+
+// ---- the type-identity matrix (go/props/c03/identity.go) ----
+
+// Unnamed interface types WITH methods, which Scriggo source cannot spell: each alias is declared
+// to Build as a type name bound to the unnamed reflect type; go/types sees the alias declaration.
+// They differ from IMN in one feature of the method set each (INM: order only — identical).
+type (
+	IM  = interface{ M() }
+	IN  = interface{ N() }
+	IMN = interface {
+		M()
+		N()
+	}
+	INM = interface {
+		N()
+		M()
+	}
+	IMO = interface {
+		M()
+		O()
+	}
+	IMNO = interface {
+		M()
+		N()
+		O()
+	}
+	IMi = interface{ M(int) }
+	IMr = interface{ M() int }
+	IMv = interface{ M(...int) }
+	IMs = interface{ M([]int) }
+	IMe = interface{ IM }
+)
+
+// MT has methods whose method values and method expressions are function values of the types
+// func(...int), func([]int), func(int) string, func(MT, ...int), …
+type MT struct{}
+
+func (MT) V(a ...int)       {}
+func (MT) S(a []int)        {}
+func (MT) P(x int) string   { return "" }
+func (*MT) Q(x int) string  { return "" }
+func (MT) R() (int, string) { return 0, "" }
+func (MT) M()               {}
+func (MT) N()               {}
